@@ -86,13 +86,15 @@ package server
 //@ ensures[C08,C15] not_found_inner: pageFor(h.template, statusCode) == 0 && !h.root ==> !result && none(Render) && none(Fprintf)
 //@ ensures[C08,C15] not_found_root: pageFor(h.template, statusCode) == 0 && h.root ==> result && emitted(Fprintf(w)) && none(Render)
 //@ ensures[C08,C15] handled: result || !h.root
+//@ emits RespondPage(h, w, statusCode, templateArguments)
 
 //@ func (*server.ErrorPageMiddleware).ServeHTTP
 //@ may_emit *
 //@ requires r != nil && !isnil(w) && ctxWF(r) && !isnil(h.next)
 //@ assigns *
 //@ ensures[C08,C15] forwards_once: count(Forward(_, _, _)) == 1 && emitted(Forward(old(h.next), w, _))
-//@ ensures[C08,C15,C19] silent_before_next: first(Forward(old(h.next), w, _), WriteHeader(_, _)) && first(Forward(old(h.next), w, _), Render(_, _, _)) && first(Forward(old(h.next), w, _), Fprintf(_))
+//@ ensures[C08,C15,C19] silent_before_next: first(Forward(old(h.next), w, _), RespondPage(_, _, _, _)) && count(RespondPage(_, _, _, _)) <= 1 && only(Forward, RespondPage)
+//@ ensures[C08,C15] page_for_the_recorded_error: emitted(RespondPage(_, _, _, _)) ==> emitted(RespondPage(h, w, _, _)) && all(RespondPage, $2 != 0)
 
 //@ func (*server.Target).createProxyHandler
 //@ assigns nothing
@@ -535,7 +537,7 @@ package server
 //@ emits Snapshot(r)
 
 //@ func (*server.Router).installService
-//@ requires s != nil && r.services != nil && s.active != nil && s.pauseController != nil
+//@ requires s != nil && r.services != nil && s.active != nil && s.pauseController != nil && !isnil(s.middleware)
 //@ attr blocks
 //@ assigns Router.services, ServiceMap.requestServiceMap, mapsof(ServiceMap.services), Service.options, `os.File`.content
 //@ may_emit Snapshot, SetService, CheckAvail, RebuildTable, ListServices, CreateTemp, JsonEncode, FileClose, FsRename, FileRemove, MarshalService, FsTruncate
@@ -551,7 +553,7 @@ package server
 //@ func (*server.Router).deployTargetsIntoService
 //@ may_emit *
 //@ emits DeployTargets(r, service, targetSlot, deployTimeout, drainTimeout)
-//@ requires service != nil && r.services != nil && service.pauseController != nil && (targetSlot == TargetSlotRollout ==> service.active != nil)
+//@ requires service != nil && r.services != nil && service.pauseController != nil && !isnil(service.middleware) && (targetSlot == TargetSlotRollout ==> service.active != nil)
 //@ attr blocks
 //@ assigns *
 //@ ensures[C01] waits_for_every_new_target_first: all(UpdateLB, before(WaitHealthy($1, deployTimeout), UpdateLB($0, $1, targetSlot, $3)) && $0 == ref(service))
@@ -676,6 +678,7 @@ package server
 
 //@ func (*server.ServiceMap).ServiceForHost
 //@ attr opaque = ets, hostBindings
+//@ emits HostLookup(m, host, result)
 //@ requires bindings_wf: forall i int :: 0 <= i && i < len(hostBindings(m, host)) ==> hostBindings(m, host)[i] != nil && hostBindings(m, host)[i].service != nil
 //@ assigns nothing
 //@ ensures[C16] root_binding_of_host: result != nil ==> exists i int :: 0 <= i && i < len(hostBindings(m, host)) && hostBindings(m, host)[i].service == result && etsMatch(hostBindings(m, host)[i].pathPrefix, "/")
@@ -683,6 +686,7 @@ package server
 
 //@ func (*server.ServiceMap).ServiceForRequest
 //@ attr opaque = ets, hostBindings
+//@ emits RouteLookup(m, req, result0, result1)
 //@ requires req != nil && req.URL != nil
 //@ requires bindings_wf: forall i int :: 0 <= i && i < len(hostBindings(m, routingHost(req.Host))) ==> hostBindings(m, routingHost(req.Host))[i] != nil && hostBindings(m, routingHost(req.Host))[i].service != nil
 //@ assigns nothing
@@ -995,7 +999,7 @@ package server
 //@ func (*server.Router).serviceForName
 //@ requires r.services != nil
 //@ assigns nothing
-//@ ensures[C06] by_name_under_the_read_lock: result != nil ==> result.name == name && result.active != nil && result.pauseController != nil
+//@ ensures[C06] by_name_under_the_read_lock: result != nil ==> result.name == name && result.active != nil && result.pauseController != nil && !isnil(result.middleware)
 //@ ensures[C18] lock_free: !held_r(r.serviceLock)
 
 //@ func (*server.Router).findOrCreateService
@@ -1003,7 +1007,7 @@ package server
 //@ assigns nothing
 //@ may_emit LoadCert, ParseTemplates
 //@ ensures[C06] validation_failures_create_nothing: err != nil ==> none(NewLB) && none(NewHealthCheck)
-//@ ensures[C06,C07,C08] works_on_a_copy: err == nil ==> result0 != nil && fresh(result0) && result0.name == name && result0.pauseController != nil
+//@ ensures[C06,C07,C08] works_on_a_copy: err == nil ==> result0 != nil && fresh(result0) && result0.name == name && result0.pauseController != nil && !isnil(result0.middleware)
 
 //@ func (*server.Router).DeployService
 //@ requires r.services != nil
@@ -1079,3 +1083,48 @@ package server
 //@ ensures[C17] returns_without_waiting: now == old(now)
 //@ ensures[C12,C11] snapshot_taken: last_is(Snapshot(r))
 //@ ensures[C18] lock_free: !held(r.serviceLock)
+
+//@ func (*server.Router).serviceForHost
+//@ requires r.services != nil
+//@ assigns nothing
+//@ may_emit HostLookup
+//@ emits HostRouted(r, host, result)
+//@ ensures[C16] looked_up_under_the_read_lock: count(HostLookup(_, _, _)) == 1 && emitted(HostLookup(_, host, result))
+//@ ensures[C16] installed_services_are_ready: result != nil ==> result.active != nil
+//@ ensures[C18] lock_free: !held_r(r.serviceLock)
+
+//@ func (*server.Router).GetCertificate
+//@ requires hello != nil && r.services != nil
+//@ assigns nothing
+//@ may_emit HostLookup, HostRouted, ManagerGetCertificate
+//@ ensures[C16] no_server_name_fails: hello.ServerName == "" ==> result0 == nil && err == ErrorNoServerName && none(ManagerGetCertificate) && none(HostRouted)
+//@ ensures[C16] unknown_or_plain_names_fail: none(ManagerGetCertificate) ==> result0 == nil && (err == ErrorNoServerName || err == ErrorUnknownServerName)
+//@ ensures[C16] only_the_requested_name_is_looked_up: all(HostRouted, $1 == hello.ServerName) && count(HostRouted(_, _, _)) <= 1 && count(ManagerGetCertificate(_, _)) <= 1
+//@ ensures[C16] certificate_comes_from_the_service_bound_to_the_name: forall s *Service :: emitted(HostRouted(_, _, s)) && emitted(ManagerGetCertificate(_, _)) ==> s != nil && !isnil(s.certManager) && emitted(ManagerGetCertificate(payload(s.certManager), hello))
+
+//@ func (*server.Service).ServeHTTP
+//@ requires r != nil && !isnil(w) && !isnil(s.middleware)
+//@ attr blocks
+//@ assigns *
+//@ may_emit *
+//@ emits ServiceServe(s, w, r)
+
+//@ func (*server.Router).serviceForRequest
+//@ requires req != nil && req.URL != nil && r.services != nil
+//@ assigns nothing
+//@ may_emit RouteLookup
+//@ emits Routed(r, req, result0, result1)
+//@ ensures[C04] one_lookup_under_the_read_lock: count(RouteLookup(_, _, _, _)) == 1 && emitted(RouteLookup(_, req, result0, result1))
+//@ ensures[C04] installed_services_are_ready: result0 != nil ==> !isnil(result0.middleware)
+//@ ensures[C18] lock_free: !held_r(r.serviceLock)
+
+//@ func (*server.Router).ServeHTTP
+//@ requires req != nil && req.URL != nil && !isnil(w) && r.services != nil && ctxWF(req)
+//@ attr blocks
+//@ assigns *
+//@ may_emit *
+//@ ensures[C04] one_outcome_service_or_404: count(ServiceServe(_, _, _)) + count(ErrResp(_, _, _)) == 1 && all(ErrResp, $1 == 404) && count(Routed(_, _, _, _)) == 1
+//@ ensures[C04] no_service_is_404: emitted(Routed(_, _, nil, _)) <==> emitted(ErrResp(w, 404, _))
+//@ ensures[C04] served_by_the_service_the_table_chose: all(ServiceServe, emitted(Routed(_, req, $0, _))) && (emitted(ServiceServe(_, _, _)) ==> emitted(ServiceServe(_, w, _)))
+//@ ensures[C13] same_request_unless_stripping: all(ServiceServe, forall p string :: emitted(Routed(_, _, _, p)) && !(old(as($0, `*Service`).options.StripPrefix) && p != "/") ==> $2 == ref(req))
+//@ ensures[C13] matched_prefix_travels_with_the_request_when_stripping: all(ServiceServe, forall p string :: emitted(Routed(_, _, _, p)) && old(as($0, `*Service`).options.StripPrefix) && p != "/" ==> ctxtyp(as($2, `*net/http.Request`), ROUTEKEY) == typeid(*routingContext) && as(ctxval(as($2, `*net/http.Request`), ROUTEKEY), `*routingContext`).MatchedPrefix == p && as($2, `*net/http.Request`).URL == req.URL && as($2, `*net/http.Request`).Method == req.Method)
